@@ -63,11 +63,11 @@ def make_abbr(evs):
     return abbr
 
 
-def compute(f):
-    key = getattr(f, "path", id(f))
+def compute(f, loop_bound=2):
+    key = (getattr(f, "path", id(f)), loop_bound)
     if key in _cache:
         return _cache[key]
-    disp = evalsum.dispatch_rows(f)
+    disp = evalsum.dispatch_rows(f, loop_bound=loop_bound)
     if not disp:
         return None
     opfns = evalsum.operator_functions(f, disp)
@@ -105,7 +105,7 @@ def compute(f):
                 "flags": tuple(sorted(o["flags"])),
             } for o in outs]
         cells[fn] = table
-    out = {"evaluator": disp["fn"], "coroutine": disp["coroutine"], "rows": rows, "opfns": opfns,
+    out = {"loop_bound": loop_bound, "evaluator": disp["fn"], "coroutine": disp["coroutine"], "rows": rows, "opfns": opfns,
            "op_of_kind": {k: sorted(v) for k, v in op_of_kind.items()}, "cells": cells}
     _cache[key] = out
     return out
